@@ -289,6 +289,32 @@ func trimCase(samples []vlib.ASample, cfg vrep.Cfg, idx int) {
 			ec = absI(int64(float64(totalFlat) * ef))
 		}
 		opts := append([]string{"-" + st.sort, fmt.Sprintf("-nodecount=%d", st.n), fmt.Sprintf("-nodefraction=%g", nf), fmt.Sprintf("-edgefraction=%g", ef)}, base...)
+		// the same report with every source file under /src/src/ and -trim_path=/src: the prefix is cut once ("src/x.c"),
+		// also when the trimmed graph is built a second time from the kept set; apart from that prefix the report is
+		// the one without trim_path
+		if idx%4 == int(run.Seed)%4 {
+			p2 := conc.Profile(vlib.AProf{ST: vrep.SampleTypes, Samples: samples})
+			renamed := false
+			for _, f := range p2.Function {
+				if f.Filename != "" && !strings.Contains(f.Filename, "src/") {
+					f.Filename = "/src/src/" + f.Filename
+					renamed = true
+				}
+			}
+			if renamed {
+				ra := render(p, append([]string{"-top"}, opts...)...)
+				rb := render(p2, append([]string{"-top", "-trim_path=/src"}, opts...)...)
+				in := map[string]interface{}{"samples": samples, "cfg": cfg, "form": "top", "opts": opts}
+				if ra.Err == nil && ra.Panic == nil {
+					if rb.Err != nil || rb.Panic != nil {
+						run.Violate("top", "top:error:trim_path", fmt.Sprint(rb.Err, rb.Panic), in, conc)
+					} else if a, b := ra.File("out"), strings.ReplaceAll(rb.File("out"), "src/", ""); a != b {
+						run.Violate("top", "trim:top:trim_path", "with every source file under /src/src/ and -trim_path=/src the trimmed report differs (apart from the prefix src/) from the report without trim_path:\n"+b+"\nvs\n"+a, in, conc)
+					}
+					run.Count("trim_path|" + fmt.Sprint(cfg, st))
+				}
+			}
+		}
 		for _, form := range []string{"top", "tree", "dot"} {
 			r := render(p, append([]string{"-" + form}, opts...)...)
 			in := map[string]interface{}{"samples": samples, "cfg": cfg, "form": form, "opts": opts}
